@@ -260,6 +260,21 @@ def run(ctx):
         R.ob(tag, (tag_name[tag], 'hook edits the result that is sent'), res_local is not None and hook_res == res_local and ret_local == res_local,
              'the after-hook receives &mut of the very result local that is returned after it completes', [b.loc(ta)],
              'result local _%s, hook arg local _%s, returned local _%s' % (res_local, hook_res, ret_local))
+        # ... and nothing else touches it afterwards: once the after-hook completed, the result local is neither assigned nor mutably borrowed again (an "improvement" of
+        # the error after the hook ran — appending the original cause, re-mapping the kind — sends something the hook did not leave there)
+        late = []
+        if res_local is not None and aa is not None and aa['ready_bb'] is not None:
+            after_blocks = cfg.reachable(b, aa['ready_bb'])
+            for i, j, s_ in b.stmts():
+                if i not in after_blocks or b.blocks[i]['cleanup'] or s_.get('expn'):
+                    continue
+                if s_['pl']['l'] == res_local:
+                    late.append(b.loc(s_))
+                rv_ = s_['rv']
+                if rv_['k'] == 'ref' and rv_.get('mut') and rv_['pl']['l'] == res_local:
+                    late.append(b.loc(s_))
+            R.ob(tag, (tag_name[tag], 'result untouched after the after-hook'), not late,
+                 'what is returned is exactly what the after-hook left in the result: the wrapper neither assigns to it nor lends it out mutably once the hook completed', late or [b.loc(ta)])
         # all ways of returning after serve completed return that local
         lc_s = base_local(b, P, ts['args'][1])
         lc_a = base_local(b, P, ta['args'][1])
